@@ -126,12 +126,15 @@ var c12Curve *ScriptCurve
 // nearest supported input of that cycle's request.
 func c12RealBackends(ctx *Ctx) {
 	r := ctx.Rng
-	for _, kind := range []string{"cmd", "file", "file-home", "hwmon"} {
+	for _, kind := range []string{"cmd", "cmd-writeonly", "file", "file-home", "hwmon"} {
 		k, home := homeKind(r, kind)
-		sc := &Scenario{Fan: FanSpec{Kind: k, HomePath: home, HasPwm: true, HasEnable: kind == "hwmon"}, Plant: PlantSpec{Kind: "const", Const: 1200}, Loop: LoopSpec{Kind: "direct"},
+		if kind == "cmd-writeonly" {
+			k = "cmd" // no getPwm command: fan2go cannot read the value back
+		}
+		sc := &Scenario{Fan: FanSpec{Kind: k, HomePath: home, HasPwm: kind != "cmd-writeonly", HasEnable: kind == "hwmon"}, Plant: PlantSpec{Kind: "const", Const: 1200}, Loop: LoopSpec{Kind: "direct"},
 			Map: pick(r, MapSpec{Kind: "readme"}, MapSpec{Kind: "hundred"}, genMap(r, false), genMap(r, false)), Window: 1, InitPwm: r.Intn(256), InitMode: 2, PriorRpm: 1200}
 		n := 40
-		if kind == "cmd" {
+		if k == "cmd" {
 			n = 14
 		}
 		for i := 0; i < n; i++ {
